@@ -50,3 +50,55 @@ VARIANTS = [
       "        lower_bound_geo: int = (item_area + bin_area - 1) // "
       "bin_area\n", "silent"),
 ]
+
+VARIANTS += [
+    V("damv-b2-ceil-half-height", I,
+      "    div: int = bin_width // ((bin_height // 2) + 1)",
+      "    div: int = bin_width // (((bin_height + 1) // 2) + 1)", "fire",
+      "D3.2", "seed C03-damv-b2-ceil-half-height: for odd H too few squares "
+      "per row, the bound exceeds the optimum (9x5 bin, three 3x3 items)"),
+    V("damv-s1-boundary", I, "        if l_i > width_m_q:",
+      "        if l_i >= width_m_q:", "fire", "D3.2"),
+    V("damv-s23-wrong-threshold", I,
+      "s23: Final[list[int]] = [j for j in (s2 + s3) if j_js[j] > "
+      "height_m_q]",
+      "s23: Final[list[int]] = [j for j in (s2 + s3) if j_js[j] > "
+      "width_m_q]", "fire", "D3.2"),
+    V("damv-pairing-strict", I, "            if needs <= residual:",
+      "            if needs < residual:", "fire", "D3.2"),
+    V("damv-gives-up-after-first-pair", I,
+      "                not_found = False\n", "                not_found = "
+      "True\n", "fire", "D3.2"),
+    V("damv-s2-not-reversed", I, "    s2.reverse()  # =", "    pass  # =",
+      "fire", "D3.2"),
+    V("damv-area-term-sign", I,
+      "        - ((bin_size * l_tilde) - sum(j_js[i] * (",
+      "        - ((bin_size * l_tilde) + sum(j_js[i] * (", "fire", "D3.2"),
+    V("damv-b1-over-rounded", I,
+      "    if (b1 * bin_width) < sum_s3_l:", "    if (b1 * bin_width) <= "
+      "sum_s3_l:", "fire", "D3.2"),
+    V("damv-orientation-args-swapped", I,
+      "__lb_q(bin_width, bin_height, q, j_sq)",
+      "__lb_q(bin_height, bin_width, q, j_sq)", "fire", "D3.2"),
+    V("damv-q-range-too-far", I, "for q in range((bin_height // 2) + 1))",
+      "for q in range(bin_height + 1))", "fire", "D3.2"),
+    V("cutsq-buffer-not-cleared", I, "        s.clear()\n", "", "fire",
+      "D3.2"),
+    V("cutsq-remainder-wrong", I, "            w, h = h, w - (k * h)",
+      "            w, h = h, w - k", "fire", "D3.2"),
+    V("silent-damv-denominator-nonnegative", I, "    if denom > 0:",
+      "    if denom >= 0:", "silent", "", "adds ceil(0) = 0"),
+    V("silent-damv-ceil-idiom", I,
+      "    b1 = sum_s3_l // bin_width\n"
+      "    if (b1 * bin_width) < sum_s3_l:\n        b1 = b1 + 1\n",
+      "    b1 = -((-sum_s3_l) // bin_width)\n", "silent", "",
+      "another exact ceiling"),
+    V("silent-damv-no-early-exit", I,
+      "        else:\n            break\n\n    # compute set S23",
+      "        else:\n            continue\n\n    # compute set S23",
+      "silent", "", "squares are sorted; scanning on changes nothing"),
+    V("silent-damv-max-args", I, "len(s2) + max(b1, b2)",
+      "max(b2, b1) + len(s2)", "silent", ""),
+    V("silent-damv-orientation-ge", I, "    if bin_height > bin_width:",
+      "    if bin_height >= bin_width:", "silent", ""),
+]
